@@ -143,33 +143,45 @@ theorem main_user_end (cd : Codec C) (sz : Sizes) (fp cp : List Nat × List Nat)
 
 /-! ### export with attributes -/
 
-set_option maxHeartbeats 2000000 in
+set_option maxHeartbeats 4000000 in
 theorem sizesOf_exportA (cd : Codec C) (g : GMesh C) : sizesOf (exportChunks cd g) = szOf g := by
   funext k
   rw [sizesOf_eq]
   by_cases he : g.raw.edges = [] <;> by_cases hf : g.raw.faces = [] <;> by_cases hc : g.raw.cells = [] <;>
     by_cases ht : (g.raw.faces.all (fun f => f.length == 3)) = true <;>
+    by_cases hq : (g.raw.cells.all (fun c => c.length == 4)) = true <;>
     cases k <;>
-    simp [exportChunks, szStep, contOf, Cont.name, szOf, he, hf, hc, ht, sz_user_app, sz_user_end, List.foldl_append]
+    simp [exportChunks, szStep, contOf, Cont.name, szOf, he, hf, hc, ht, hq, sz_user_app, sz_user_end, List.foldl_append]
 
-set_option maxHeartbeats 2000000 in
+/-- the pointer pair the importer derives for the cells of an exported mesh -/
+def cpOf (g : GMesh C) : List Nat × List Nat :=
+  if g.raw.cells = [] ∨ g.raw.cells.all (fun c => c.length == 4) = true then ([], [])
+  else (g.raw.cells.map List.length, prefixSums 0 g.raw.cells)
+
+theorem cpOf_eq (g : GMesh C) : cpOf g = ptrOf 4 g.raw.cells := rfl
+
+set_option maxHeartbeats 4000000 in
 theorem ptrPass_exportA (cd : Codec C) (g : GMesh C) (hg : ∀ a ∈ g.attrs, GoodAttr cd a) :
-    ptrPass (szOf g) (exportChunks cd g) = some (fpOf g, ([], [])) := by
+    ptrPass (szOf g) (exportChunks cd g) = some (fpOf g, cpOf g) := by
   have hp : ∀ fs : List (List Nat), mapOpt readIdx0 ((prefixSums 0 fs).map idx0) = some (prefixSums 0 fs) :=
     fun fs => mapOpt_idx0 _
+  have hpsF : g.raw.faces ≠ [] → ptrSizes g.raw.faces.length (g.raw.faces.map List.length).sum (prefixSums 0 g.raw.faces)
+      = some (g.raw.faces.map List.length) := by
+    intro hf; have := ptrSizes_export g.raw.faces hf; simpa only [List.length_flatten] using this
+  have hpsC : g.raw.cells ≠ [] → ptrSizes g.raw.cells.length (g.raw.cells.map List.length).sum (prefixSums 0 g.raw.cells)
+      = some (g.raw.cells.map List.length) := by
+    intro hc; have := ptrSizes_export g.raw.cells hc; simpa only [List.length_flatten] using this
   have pa := fun sz k rest s => ptr_user_app cd sz g.attrs hg k rest s
   have pe := fun sz k s => ptr_user_end cd sz g.attrs hg k s
   rw [ptrPass_eq]
   by_cases he : g.raw.edges = [] <;> by_cases hf : g.raw.faces = [] <;> by_cases hc : g.raw.cells = [] <;>
     by_cases ht : (g.raw.faces.all (fun f => f.length == 3)) = true <;>
-    simp [exportChunks, ptrStep, foldOpt, facetPtrName, cellPtrName, typeOf, szOf, fpOf, he, hf, hc, ht, hp, pa, pe]
-  all_goals
-    have hps := ptrSizes_export g.raw.faces hf
-    simp only [List.length_flatten] at hps
-    simp [hps]
+    by_cases hq : (g.raw.cells.all (fun c => c.length == 4)) = true <;>
+    simp [exportChunks, ptrStep, foldOpt, facetPtrName, cellPtrName, typeOf, szOf, fpOf, cpOf, he, hf, hc, ht, hq, hp, pa, pe,
+      hpsF, hpsC]
 
 /-- attributes of the mesh that the exporter writes (those on a non-empty element set), in file order, with the
-`facet_ptr` block (re-read as an integer attribute of the facets) at its place -/
+`facet_ptr` / `cell_ptr` blocks (re-read as integer attributes of the facets / cells) at their place -/
 def expectedAttrs (g : GMesh C) : List GAttr :=
   attrsOn g.attrs .vertices
   ++ (if g.raw.edges = [] then [] else attrsOn g.attrs .edges)
@@ -177,18 +189,21 @@ def expectedAttrs (g : GMesh C) : List GAttr :=
       (if g.raw.faces.all (fun f => f.length == 3) = true then [] else
         [{ cont := .facets, name := facetPtrName, typ := .int, dim := 1, vals := (prefixSums 0 g.raw.faces).map idx0 }])
       ++ attrsOn g.attrs .facets ++ attrsOn g.attrs .facetCorners)
-  ++ (if g.raw.cells = [] then [] else attrsOn g.attrs .cells ++ attrsOn g.attrs .cellCorners)
+  ++ (if g.raw.cells = [] then [] else
+      (if g.raw.cells.all (fun c => c.length == 4) = true then [] else
+        [{ cont := .cells, name := cellPtrName, typ := .int, dim := 1, vals := (prefixSums 0 g.raw.cells).map idx0 }])
+      ++ attrsOn g.attrs .cells ++ attrsOn g.attrs .cellCorners)
 
 def expectedGA (g : GMesh C) : GMesh C :=
   { raw := { g.raw with hard := none }, attrs := expectedAttrs g, adj := if g.raw.cells = [] then [] else g.adj }
 
-set_option maxHeartbeats 8000000 in
-theorem mainPass_exportA (cd : Codec C) (h : RoundTrips cd) (g : GMesh C) (hg : ∀ a ∈ g.attrs, GoodAttr cd a)
-    (htet : ∀ c ∈ g.raw.cells, c.length = 4) :
-    foldOpt (stepImport cd (szOf g) (defaultPtr 3 g.raw.faces.length (fpOf g)) (defaultPtr 4 g.raw.cells.length ([], [])))
+set_option maxHeartbeats 16000000 in
+theorem mainPass_exportA (cd : Codec C) (h : RoundTrips cd) (g : GMesh C) (hg : ∀ a ∈ g.attrs, GoodAttr cd a) :
+    foldOpt (stepImport cd (szOf g) (defaultPtr 3 g.raw.faces.length (fpOf g)) (defaultPtr 4 g.raw.cells.length (cpOf g)))
       {} (exportChunks cd g) = some (expectedGA g) := by
   have hF := facesBuild g
-  have hC := buildElems_default 4 g.raw.cells htet
+  have hC := elemsBuild 4 g.raw.cells
+  rw [← cpOf_eq] at hC
   have hA : mapOpt readIdx0 (g.adj.map idx0) = some g.adj := mapOpt_idx0 _
   have hFc : mapOpt readIdx0 (g.raw.faces.flatten.map idx0) = some g.raw.faces.flatten := mapOpt_idx0 _
   have hCc : mapOpt readIdx0 (g.raw.cells.flatten.map idx0) = some g.raw.cells.flatten := mapOpt_idx0 _
@@ -199,20 +214,22 @@ theorem mainPass_exportA (cd : Codec C) (h : RoundTrips cd) (g : GMesh C) (hg : 
     apply List.take_of_length_le; rw [flat_len]; omega
   have hE4 := pairs_flat g.raw.edges
   have hV := convVals_int cd (prefixSums 0 g.raw.faces)
+  have hW := convVals_int cd (prefixSums 0 g.raw.cells)
   have ma := fun sz fp cp k rest g' => main_user_app cd sz fp cp g.attrs hg k rest g'
   have me := fun sz fp cp k g' => main_user_end cd sz fp cp g.attrs hg k g'
   by_cases he : g.raw.edges = [] <;> by_cases hf : g.raw.faces = [] <;> by_cases hc : g.raw.cells = [] <;>
     by_cases ht : (g.raw.faces.all (fun f => f.length == 3)) = true <;>
+    by_cases hq : (g.raw.cells.all (fun c => c.length == 4)) = true <;>
     simp [exportChunks, stepImport, foldOpt, facetPtrName, cellPtrName, typeOf, contOf, Cont.name, szOf,
-      expectedGA, expectedAttrs, he, hf, hc, ht, hF, hC, hA, hFc, hCc, hP, hE, hE3, hE4, hV, triples_flat, sum_two,
+      expectedGA, expectedAttrs, he, hf, hc, ht, hq, hF, hC, hA, hFc, hCc, hP, hE, hE3, hE4, hV, hW, triples_flat, sum_two,
       ma, me, -List.map_flatten]
 
 theorem importChunks_exportChunks_attrs (cd : Codec C) (h : RoundTrips cd) (g : GMesh C)
-    (hg : ∀ a ∈ g.attrs, GoodAttr cd a) (htet : ∀ c ∈ g.raw.cells, c.length = 4) :
+    (hg : ∀ a ∈ g.attrs, GoodAttr cd a) :
     importChunks cd (exportChunks cd g) = some (expectedGA g) := by
   unfold importChunks
   simp only [sizesOf_exportA cd g, ptrPass_exportA cd g hg]
-  exact mainPass_exportA cd h g hg htet
+  exact mainPass_exportA cd h g hg
 
 /-- every user attribute on a non-empty element set is among the attributes read back, unchanged -/
 theorem attrs_come_back (g : GMesh C) (a : GAttr) (ha : a ∈ g.attrs)
@@ -231,9 +248,9 @@ theorem attrs_come_back (g : GMesh C) (a : GAttr) (ha : a ∈ g.attrs)
   · rcases h with h | h <;> simp [hn, mem _ h]
   · rcases h with h | h <;> simp [hn, mem _ h]
 
-/-- nothing else is read back: an attribute of the result is a user attribute of the mesh or the `facet_ptr` block -/
+/-- nothing else is read back: an attribute of the result is a user attribute of the mesh or a `*_ptr` block -/
 theorem attrs_nothing_else (g : GMesh C) (a : GAttr) (ha : a ∈ expectedAttrs g) :
-    a ∈ g.attrs ∨ a.name = facetPtrName := by
+    a ∈ g.attrs ∨ a.name = facetPtrName ∨ a.name = cellPtrName := by
   have sub : ∀ k, a ∈ attrsOn g.attrs k → a ∈ g.attrs := fun k hk => (List.mem_filter.mp hk).1
   unfold expectedAttrs at ha
   simp only [List.mem_append] at ha
@@ -248,12 +265,17 @@ theorem attrs_nothing_else (g : GMesh C) (a : GAttr) (ha : a ∈ expectedAttrs g
       rcases ha with (ha | ha) | ha
       · split at ha
         · simp at ha
-        · simp at ha; right; rw [ha]
+        · simp at ha; right; left; rw [ha]
       · exact Or.inl (sub _ ha)
       · exact Or.inl (sub _ ha)
   · split at ha
     · simp at ha
     · simp only [List.mem_append] at ha
-      rcases ha with ha | ha <;> exact Or.inl (sub _ ha)
+      rcases ha with (ha | ha) | ha
+      · split at ha
+        · simp at ha
+        · simp at ha; right; right; rw [ha]
+      · exact Or.inl (sub _ ha)
+      · exact Or.inl (sub _ ha)
 
 end Mouette.IO.Geo
